@@ -160,6 +160,85 @@ theorem C07_decoders_fit_declarations (a : Ast) (m : Module) (hs : Supported a =
   have hfam : m.fromBytes = m.fromRefMut := C07_families_identical a m hg
   exact ⟨h, by rw [hfam]; exact h⟩
 
+/-! ### `paramsOk` holds for every `Ast` the front end builds -/
+
+theorem mem_bins {α} (k : String) (v : α) : ∀ (m : List (String × α)) (x : String × α), x ∈ bins k v m → x = (k, v) ∨ x ∈ m := by
+  intro m
+  induction m with
+  | nil => intro x h; simp only [bins, List.mem_singleton] at h; exact Or.inl h
+  | cons y ys ih =>
+    intro x h
+    obtain ⟨k', v'⟩ := y
+    simp only [bins] at h
+    split at h
+    · rcases List.mem_cons.mp h with h | h
+      · exact Or.inl h
+      · exact Or.inr h
+    · split at h
+      · rcases List.mem_cons.mp h with h | h
+        · exact Or.inl h
+        · exact Or.inr (List.mem_cons_of_mem _ h)
+      · rcases List.mem_cons.mp h with h | h
+        · exact Or.inr (h ▸ List.mem_cons_self)
+        · rcases ih x h with h | h
+          · exact Or.inl h
+          · exact Or.inr (List.mem_cons_of_mem _ h)
+
+theorem mem_foldl_bins {α} : ∀ (es m : List (String × α)) (x : String × α),
+    x ∈ es.foldl (fun m kv => bins kv.1 kv.2 m) m → x ∈ es ∨ x ∈ m := by
+  intro es
+  induction es with
+  | nil => intro m x h; exact Or.inr h
+  | cons e rest ih =>
+    intro m x h
+    simp only [List.foldl_cons] at h
+    rcases ih _ x h with h | h
+    · exact Or.inl (List.mem_cons_of_mem _ h)
+    · rcases mem_bins e.1 e.2 m x h with h | h
+      · exact Or.inl (h ▸ List.mem_cons_self)
+      · exact Or.inr h
+
+/-- every name in the generic index is the name of a struct, union or typedef declaration -/
+theorem reach_name {gs : List GItem} {n : String} (h : Reach gs n) : n ∈ gnames gs := by
+  cases h with
+  | own hm _ => exact List.mem_map.mpr ⟨_, hm, rfl⟩
+  | ref hm _ _ => exact List.mem_map.mpr ⟨_, hm, rfl⟩
+
+/-- **the parameter-list hypothesis of `C07_decoders_fit_declarations` is a theorem about the front end**: for every item list
+    whose struct / union / typedef names are pairwise distinct and not also the name of an enum, the `Ast` that `Ast::new` builds
+    satisfies `paramsOk` (typedefs via `C13_typedef_param_consistent`; an enum is never in the generic index) -/
+theorem C07_paramsOk_of_front_end (items : List Item) (a : Ast) (ha : Ast.ofItems items = .ok a)
+    (hnd : (gnames (items.filterMap gitemOf)).Nodup)
+    (hen : ∀ e, Item.enum e ∈ items → e.name ∉ gnames (items.filterMap gitemOf)) : paramsOk a = true := by
+  have hty : a.types = TypeIndex.new items ∧ a.generics = GenericIndex.new items := by
+    unfold Ast.ofItems at ha
+    cases hc : ConstantIndex.new items with
+    | panicAt f m => simp [hc] at ha
+    | ok cs => simp only [hc, Out.bind_ok] at ha; cases ha; exact ⟨rfl, rfl⟩
+  simp only [paramsOk, List.all_eq_true]
+  intro kv hkv
+  rw [hty.1, TypeIndex.new] at hkv
+  rcases mem_foldl_bins _ _ kv hkv with hmem | hmem
+  · obtain ⟨item, hitem, hentry⟩ := List.mem_filterMap.mp hmem
+    cases item with
+    | constant n v => simp [typeEntry] at hentry
+    | struct s => simp only [typeEntry] at hentry; cases hentry; rfl
+    | union u => simp only [typeEntry] at hentry; cases hentry; rfl
+    | typedef t =>
+      simp only [typeEntry] at hentry; cases hentry
+      simp only [beq_iff_eq]
+      exact C13.C13_typedef_param_consistent items a ha hnd t hitem
+    | enum e =>
+      simp only [typeEntry] at hentry; cases hentry
+      simp only [Bool.not_eq_true', Ast.isGeneric, hty.2]
+      cases hc : (GenericIndex.new items).contains e.name with
+      | false => rfl
+      | true =>
+        have hin : e.name ∈ GenericIndex.new items := by simpa using hc
+        exact absurd (reach_name ((C13.C13_generics_iff_reach items e.name).mp hin)) (hen e hitem)
+  · cases hmem
+
+
 /-- non-vacuity: `const A = 3; enum e { M = 1 }; struct s { opaque o<A>; unsigned int n; }; typedef unsigned int t;
     union u switch (e d) { case M: s x; }` satisfies all four hypotheses -/
 def exAst : Ast :=
